@@ -63,7 +63,7 @@ def part_b2(tier):
     """S1 pipelines on real threads, natively: build on one thread, mutate on a second, render on a
     third — never two threads at once, hence deterministic. Reaches per-thread state
     (thread_local!), which shuttle cannot show because all its tasks share one OS thread."""
-    r = sh("cargo build --release --features ts --bin miri_scn --target-dir target-ts", cwd=SIM)
+    r = sh("cargo build --release --features shuttle-mode --bin miri_scn --target-dir target-ts", cwd=SIM)
     if r.returncode != 0:
         return {"build_failed": True, "stderr": r.stderr[-1500:]}, 2, None
     n = 4000 if tier == "quick" else 200000
@@ -110,7 +110,7 @@ def part_c(tier, out):
     # so lazily initialised statics see a contended first use in every execution
     for prog in range(programs):
         try:
-            r = sh(f"cargo +nightly miri run --features ts --bin miri_scn --target-dir target-miri -- {SEED} {prog} 1", cwd=SIM, env=env, timeout=3600)
+            r = sh(f"cargo +nightly miri run --features threads --bin miri_scn --target-dir target-miri -- {SEED} {prog} 1", cwd=SIM, env=env, timeout=3600)
         except subprocess.TimeoutExpired:
             res["wall_s"] = time.time() - t0
             res["timeout_program"] = prog
@@ -126,7 +126,7 @@ def part_c(tier, out):
         if findings and not ub:
             # a lineage mismatch: is it there without any thread too (fresh native process)? then
             # it is not a thread-safety matter and is not reported under C20
-            sh("cargo build --release --features ts --bin miri_scn --target-dir target-ts", cwd=SIM)
+            sh("cargo build --release --features shuttle-mode --bin miri_scn --target-dir target-ts", cwd=SIM)
             rb = sh(f"./target-ts/release/miri_scn {SEED} {prog} 1 baseline", cwd=SIM)
             if rb.returncode != 0:
                 res.setdefault("programs_failing_without_threads", []).append(prog)
@@ -279,7 +279,7 @@ def replay(path):
         print("obligations hold on this tree")
         return 0
     if mode == "pipeline":
-        sh("cargo build --release --features ts --bin miri_scn --target-dir target-ts", cwd=SIM)
+        sh("cargo build --release --features shuttle-mode --bin miri_scn --target-dir target-ts", cwd=SIM)
         r = sh(f"./target-ts/release/miri_scn {tr['seed']} {tr['program']} 1 pipeline", cwd=SIM)
         rb = sh(f"./target-ts/release/miri_scn {tr['seed']} {tr['program']} 1 pipeline-baseline", cwd=SIM)
         sys.stdout.write(r.stdout[-1500:])
@@ -291,7 +291,7 @@ def replay(path):
     if mode == "miri":
         s = tr.get("failing_miri_seed")
         flags = tr["miri_flags"] if s is None else f"-Zmiri-seed={s} -Zmiri-preemption-rate=0.1 -Zmiri-disable-isolation"
-        r = sh(f"cargo +nightly miri run --features ts --bin miri_scn --target-dir target-miri -- {tr['seed']} {tr.get('program', 0)} {tr['programs']}", cwd=SIM, env=dict(ENV, MIRIFLAGS=flags))
+        r = sh(f"cargo +nightly miri run --features threads --bin miri_scn --target-dir target-miri -- {tr['seed']} {tr.get('program', 0)} {tr['programs']}", cwd=SIM, env=dict(ENV, MIRIFLAGS=flags))
         text = r.stdout + r.stderr
         if r.returncode != 0 and (MIRI_ERR.search(text) or "FINDINGS" in text):
             print(text[-2000:])
